@@ -48,33 +48,45 @@ class Expr:
         self.multi = multi  # selector over several columns (pl.col('*'), pl.col(pl.Boolean))
 
     # ---- helpers
-    def _bin(self, other, f, kind="bool"):
+    def _bin(self, other, f, kind="bool", nan=None):
+        """binary operator; `nan(a_is_nan, b_is_nan, plain)` is the result where an operand may be the float NaN.  polars orders floats
+        totally: NaN equals NaN and is greater than every other value (unlike IEEE / numpy, where every comparison with NaN is false)"""
         oe = other if isinstance(other, Expr) else None
 
         def ev(fr):
             a = self.ev(fr)
             b = oe.ev(fr) if oe is not None else _lit_col(other)
-            return Col(lambda i: f(a.at(i), b.at(i)), lambda i: z3.Or(a.null(i), b.null(i)), kind)
+
+            def at(i):
+                plain = f(a.at(i), b.at(i))
+                if nan is None:
+                    return plain
+                an, bn = a.nan(i), b.nan(i)
+                if z3.is_false(an) and z3.is_false(bn):
+                    return plain
+                return SBool(nan(an, bn, _zb(plain)))
+
+            return Col(at, lambda i: z3.Or(a.null(i), b.null(i)), kind)
 
         return Expr(ev, self.name)
 
     def eq(self, o):
-        return self._bin(o, lambda a, b: _b(py_eq(a, b)))
+        return self._bin(o, lambda a, b: _b(py_eq(a, b)), nan=lambda an, bn, p: z3.If(z3.Or(an, bn), z3.And(an, bn), p))
 
     def ne(self, o):
-        return self._bin(o, lambda a, b: _b(Not(py_eq(a, b))))
+        return self._bin(o, lambda a, b: _b(Not(py_eq(a, b))), nan=lambda an, bn, p: z3.If(z3.Or(an, bn), z3.Not(z3.And(an, bn)), p))
 
     def gt(self, o):
-        return self._bin(o, lambda a, b: a > b)
+        return self._bin(o, lambda a, b: a > b, nan=lambda an, bn, p: z3.If(an, z3.Not(bn), z3.If(bn, False, p)))
 
     def ge(self, o):
-        return self._bin(o, lambda a, b: a >= b)
+        return self._bin(o, lambda a, b: a >= b, nan=lambda an, bn, p: z3.If(an, True, z3.If(bn, False, p)))
 
     def lt(self, o):
-        return self._bin(o, lambda a, b: a < b)
+        return self._bin(o, lambda a, b: a < b, nan=lambda an, bn, p: z3.If(bn, z3.Not(an), z3.If(an, False, p)))
 
     def le(self, o):
-        return self._bin(o, lambda a, b: a <= b)
+        return self._bin(o, lambda a, b: a <= b, nan=lambda an, bn, p: z3.If(bn, True, z3.If(an, False, p)))
 
     __eq__ = eq  # type: ignore
     __ne__ = ne  # type: ignore
@@ -101,7 +113,8 @@ class Expr:
 
         def ev(fr):
             a = self.ev(fr)
-            return Col(lambda i: _b(mem(a.at(i))), a.null, "bool")
+            # (NaN is a member only of a collection that holds NaN; the collections of the contracts hold none)
+            return Col(lambda i: _b(mem(a.at(i))) if z3.is_false(a.nan(i)) else SBool(z3.And(z3.Not(a.nan(i)), _zb(_b(mem(a.at(i)))))), a.null, "bool")
 
         return Expr(ev, self.name)
 
@@ -705,7 +718,9 @@ class SeriesP:
 
     def unique(self):
         fr, c = self.frame, self.col
-        return SymSet(lambda v: SBool(_exists(fr, lambda i: z3.And(z3.Not(c.null(i)), _zb(py_eq(c.at(i), v))))), "unique")
+        # (the float NaN is a value no number equals: like null it is an element on its own)
+        return SymSet(lambda v: SBool(_exists(fr, lambda i: z3.And(z3.Not(c.null(i)), z3.Not(c.nan(i)), _zb(py_eq(c.at(i), v))))), "unique",
+                      has_null=SBool(_exists(fr, lambda i: z3.Or(c.null(i), c.nan(i)))))
 
 
 def _exists(fr, body):
